@@ -812,6 +812,8 @@ MUTANTS = [
            expect_rule="keys/components-as-read"),
     Mutant("rsa-builder-orders-the-primes-bounded", KY, "        publicNumbers = rsa.RSAPublicNumbers(e=e, n=n)\n", "        publicNumbers = rsa.RSAPublicNumbers(e=e, n=n)\n        if d is not None:\n            p, q = min(p, q), max(p, q)\n",
            expect_rule="roundtrip/"),
+    Mutant("getNS-named-offsets-skip-a-byte", CM, "        ns.append(s[c + 4 : 4 + l + c])\n        c += 4 + l\n", "        start = c + 4\n        end = start + l\n        ns.append(s[start:end])\n        c = end + 1\n",
+           expect_rule="s/primitive/offsets"),
 ]
 SILENT = [
     Silent("ec-point-to_bytes-fixed-width", KY, "                    + utils.int_to_bytes(data[\"x\"], byteLength)\n                    + utils.int_to_bytes(data[\"y\"], byteLength)\n",
@@ -827,4 +829,5 @@ SILENT = [
            "        if b\"ssh-rsa\" == keyType:\n            n, e, d, u, p, q, rest = common.getMP(rest, 6)\n            return cls._fromRSAComponents(n=n, e=e, d=d, p=p, q=q)\n        if keyType == b\"ssh-dss\":"),
     Silent("ed25519-seed-width-named", KY, "            k = combined[:32]\n", "            seedLength = 32\n            k = combined[:seedLength]\n"),
     Silent("ed25519-strings-cut-positionally", KY, "            a, combined, rest = common.getNS(rest, 2)\n            k = combined[:32]\n", "            a, combined = common.getNS(rest, 2)[:2]\n            k = combined[0:32]\n"),
+    Silent("getNS-named-offsets", CM, "        ns.append(s[c + 4 : 4 + l + c])\n        c += 4 + l\n", "        start = c + 4\n        end = start + l\n        ns.append(s[start:end])\n        c = end\n"),
 ]
